@@ -6,7 +6,7 @@
 set -u
 cd "$(dirname "$0")"
 runs="${1:-2000}"
-bin=./target/release/avrosim
+bin="${CARGO_TARGET_DIR:-/verif/target}/release/avrosim"
 fail=0
 for seed in 1 7; do
   for id in C03 C06 C13 C14 C18 C20; do
